@@ -488,6 +488,13 @@ def rule_v1(chk: Check, ix: Index):
                         f"the `finally` block reads {risky}, first bound inside the `try` body: when the body raises the name is unbound and "
                         f"an UnboundLocalError replaces the real error (only with verbose=True if the read is in the trace)")
         for n in own_nodes(g.node):
+            # (c) a table indexed by the trace depth: the depth is unbounded (it follows the nesting of the input), a table is not
+            if isinstance(n, ast.Subscript) and not isinstance(n.slice, ast.Slice) and "_level" in norm_stmt(n.slice) and \
+                    isinstance(n.ctx, ast.Load):
+                chk.count("V1-verbose-erasure")
+                chk.fail("V1-verbose-erasure", f"{q}:table-by-depth:{norm_stmt(n)[:40]}", f"{g.rel}:{n.lineno}",
+                         f"`{norm_stmt(n)}` indexes a finite table with the trace depth, which grows with the nesting of the input: beyond "
+                         f"the table's length the trace raises IndexError, so verbose=True changes the outcome of the parse")
             if isinstance(n, ast.BinOp) and isinstance(n.op, ast.Mod) and isinstance(n.left, ast.JoinedStr) and \
                     any(isinstance(v, ast.FormattedValue) for v in n.left.values):
                 chk.count("V1-verbose-erasure")
